@@ -285,7 +285,8 @@ __wrap_nni_aio_start(nni_aio *aio, nni_aio_cancel_fn fn, void *data)
 		e->in_start  = true;
 		e->abs_fresh = false;
 	}
-	bool ok = __real_nni_aio_start(aio, fn, data);
+	uint64_t t_before = sim_now_ms();
+	bool     ok       = __real_nni_aio_start(aio, fn, data);
 	if (e != NULL)
 		e->in_start = false;
 	// "A timeout never fires before the configured duration": a submission
@@ -314,9 +315,10 @@ __wrap_nni_aio_start(nni_aio *aio, nni_aio_cancel_fn fn, void *data)
 			    : (uint64_t) aio->a_expire;
 			// without an absolute expiration of its own the configured
 			// duration governs, whatever the aio still carries
+			// (counted from before the call: the thread may be held up inside it)
 			if (!fresh && !sleeping && aio->a_timeout > 0 &&
-			    e->expire_ms < e->start_ms + (uint64_t) aio->a_timeout)
-				e->expire_ms = e->start_ms + (uint64_t) aio->a_timeout;
+			    e->expire_ms < t_before + (uint64_t) aio->a_timeout)
+				e->expire_ms = t_before + (uint64_t) aio->a_timeout;
 		} else {
 			C.refused++;
 			sim_probe("aio_start_refused");
